@@ -267,6 +267,20 @@ def write_replay(prop, rec, why, extra=None):
     return path
 
 
+def write_replay_file(prop, case, why, rec=None):
+    """replay = a copy of the whole case file (histories, schedules: the sequence matters)"""
+    os.makedirs(os.path.join(REPLAYS, prop), exist_ok=True)
+    body = open(case).read()
+    h = hashlib.sha256(body.encode()).hexdigest()[:12]
+    path = os.path.join(REPLAYS, prop, "%s-%s.case" % (prop, h))
+    with open(path, "w") as f:
+        f.write("# replay for %s: %s\n" % (prop, why))
+        if rec:
+            f.write("# impl : %s\n# model: %s\n" % (rec["impl"][:500], rec["model"][:500]))
+        f.write(body)
+    return path
+
+
 def write_nofail_replay(prop, what, detail):
     os.makedirs(os.path.join(REPLAYS, prop), exist_ok=True)
     path = os.path.join(REPLAYS, prop, "%s-unchecked-%d.txt" % (prop, int(time.time())))
